@@ -266,7 +266,11 @@ def main():
     real_fail = []
     direct = summary["direct_violations"] if summary else []
     for d in direct:
-        failing.append((d["case"], 0, 900))  # a direct violation is an oracle failure observed by the harness
+        if d.get("kind", "").startswith("model-cannot-follow"):
+            # the code took its steps in an order the model has no word for: a broken correspondence, not a failing input
+            failing.append((d["case"], 800, 0))
+        else:
+            failing.append((d["case"], 0, 900))  # a direct violation is an oracle failure observed by the harness
     directmsg = {d["case"]: d for d in direct}
     for (idx, c, o) in sorted(set(failing)):
         if only_idx is not None and idx != only_idx:
